@@ -244,9 +244,26 @@ func CheckC01(h *History) []Violation {
 func CheckC06(h *History) []Violation {
 	var v vio
 	sc := h.Scenario
+	// money really available = everything credited minus the rated price of all usage
+	// reported so far; the reservation the CHF *claims* to hold is not trusted
+	creditedC := map[string]int64{}
+	usedC := map[string]int64{}
+	for _, a := range sc.Accounts {
+		creditedC[acctKey(a.Supi, a.RG)] = a.Quota
+	}
 	for _, o := range h.Ops {
 		if !o.Done || o.Skipped != "" {
 			continue
+		}
+		if o.Op.Kind == "recharge" {
+			if _, ok := creditedC[acctKey(o.Op.Supi, o.Op.RG)]; ok {
+				creditedC[acctKey(o.Op.Supi, o.Op.RG)] += o.Op.TopUp
+			}
+		}
+		if (o.Op.Kind == "create" || o.Op.Kind == "update" || o.Op.Kind == "release") && is2xx(o.Status) {
+			for rg, u := range onlineUsed(o) {
+				usedC[acctKey(o.Op.Supi, rg)] += u
+			}
 		}
 		for _, st := range o.Post {
 			if st.HasQuota && st.Quota < 0 {
@@ -270,6 +287,9 @@ func CheckC06(h *History) []Violation {
 				continue
 			}
 			avail := pre.Quota + pre.Reserved - cost*used[u.RG]
+			if real := creditedC[acctKey(o.Op.Supi, u.RG)] - cost*usedC[acctKey(o.Op.Supi, u.RG)]; real < avail {
+				avail = real // the CHF's books claim more unconsumed reservation than money was ever taken from the account
+			}
 			buys := avail / cost
 			if avail < 0 {
 				buys = 0
@@ -783,6 +803,38 @@ func suffixOf(got []cdrContainer, all []ContainerRec, n int) string {
 
 func CheckC12(h *History) []Violation {
 	var v vio
+	if h.Scenario.Cfg.Concurrent {
+		won, releases := map[string]int{}, map[string]int{}
+		// requests racing with a release: statuses and "no effect once released"
+		for _, o := range h.Ops {
+			if !o.Done || o.Skipped != "" {
+				continue
+			}
+			switch o.Op.Kind {
+			case "release":
+				// several releases may race for one session: exactly one of them wins
+				if o.Status == 204 {
+					won[o.Op.Sess]++
+				} else if !is4xx(o.Status) {
+					v.add("C12", "status", "op=release concurrent", o.Op.ID, "release op %d answered %d, expected 204 (or 4xx when another release of the session won)", o.Op.ID, o.Status)
+					return v.list
+				}
+				releases[o.Op.Sess]++
+			case "update":
+				if o.Status != 200 && !(o.Op.Role == "may-reject" && is4xx(o.Status)) {
+					v.add("C12", "status", "op=update concurrent", o.Op.ID, "update op %d answered %d (a request racing with the release of its session may be answered 200 or 4xx)", o.Op.ID, o.Status)
+					return v.list
+				}
+			}
+		}
+		for sess, n := range releases {
+			if won[sess] != 1 {
+				v.add("C12", "status", "op=release concurrent winners", -1, "%d release requests raced for session %s and %d of them were answered 204, expected exactly one", n, sess, won[sess])
+				return v.list
+			}
+		}
+		return append(v.list, CheckReleaseRace(h, "C12")...)
+	}
 	notify := map[string]string{} // supi -> registered notify URI
 	known := map[string]bool{}
 	for _, o := range h.Ops {
